@@ -376,6 +376,9 @@ for _p in ("C10", "C12"):
 for _p in ("C10", "C16"):
     PROPS[_p]["functions"] += ["vectorizers/mixed_gram_vectorizer.py::unicode_to_uint8"]
 
+for _p in ("C13", "C10"):
+    PROPS[_p]["functions"] += ["vectorizers/linear_optimal_transport.py::project_to_sphere_tangent_space"]
+
 # C04: the document chunks handed to the worker threads partition the corpus (for every n_threads and every corpus)
 PROPS["C04"]["functions"] += ["vectorizers/base_cooccurrence_vectorizer.py::BaseCooccurrenceVectorizer._generate_chunk_boundaries",
                               "vectorizers/multi_token_cooccurence_vectorizer.py::MultiSetCooccurrenceVectorizer._generate_chunk_boundaries#partition"]
